@@ -7,6 +7,7 @@ import facts
 import specs
 from specs import TWO_PI
 from c09 import trees_equal
+import c05
 
 PROP = 'C15'
 
@@ -18,6 +19,10 @@ def build():
     h.root('between_vectors__q', g + '(a: %s, b: %s) -> Quaternion<S>' % (V, V), '<Quaternion<S> as Rotation>::between_vectors(a, b)', ('arc', 'between'))
     h.root('between_vectors__b3', g + '(a: %s, b: %s) -> Basis3<S>' % (V, V), '<Basis3<S> as Rotation>::between_vectors(a, b)', ('deleg', 'code'))
     h.root('ref_between_vectors__b3', g + '(a: %s, b: %s) -> Basis3<S>' % (V, V), 'Basis3::from(<Quaternion<S> as Rotation>::between_vectors(a, b))', ('deleg', 'ref'))
+    # Basis3::between_vectors is the quaternion's arc converted to a matrix: that the conversion yields the matrix of the SAME rotation
+    # is C05's quaternion-to-matrix rule, applied here to the code this check depends on
+    h.root('dep_b3_from_q', g + '(a: Quaternion<S>) -> Basis3<S>', 'Basis3::from(a)', ('qmat', 3))
+    h.root('dep_b3_from_quaternion', g + '(a: &Quaternion<S>) -> Basis3<S>', 'Basis3::from_quaternion(a)', ('qmat', 3))
     h.root('between_vectors__b2', g + '(a: %s, b: %s) -> Basis2<S>' % (V2, V2), '<Basis2<S> as Rotation>::between_vectors(a, b)', ('b2',))
     h.root('from_arc', g + '(a: %s, b: %s, f: Option<%s>) -> Quaternion<S>' % (V, V, V), 'Quaternion::from_arc(a, b, f)', ('arc', 'from_arc'))
     return h
@@ -280,7 +285,7 @@ def run(tier):
     mono_ = h.monomorphise(['f32', 'f64'], bound='<S: BaseFloat>', kinds=None, method_syntax=True, soft=True)   # concrete scalar types, both spellings: what a user of f32 / f64 really gets
     S, inv, meta = facts.extract(PROP, h.src())
     report_dropped(run, meta, h)
-    run_specs(run, S, h, custom={'arc': check_arc, 'deleg': check_deleg, 'b2': check_b2})
+    run_specs(run, S, h, custom={'qmat': c05.check_qmat, 'arc': check_arc, 'deleg': check_deleg, 'b2': check_b2})
     run.floor('roots', len(run.roots), len(h.specs))
     run.assumed.update(A.CTX.assumed)
     return run.finish(
